@@ -41,7 +41,7 @@ int archive_random(void *buf, size_t nbytes) { memset(buf, 0x5A, nbytes); return
 /* Scribble over the stack below the current frame so that an uninitialised local of the
  * library reads this pattern (chosen per run by VERIF_STACK_POISON) and not stale zeros. */
 static int stack_pat = -1;
-static void __attribute__((noinline)) scribble(void)
+static void __attribute__((noinline, no_sanitize("address"), no_sanitize("undefined"))) scribble(void)
 {
 	volatile unsigned char big[192 * 1024];
 	if (stack_pat < 0) { const char *e = getenv("VERIF_STACK_POISON"); stack_pat = e ? atoi(e) & 0xff : 0; }
@@ -201,6 +201,7 @@ static void c_op(char *line)
 	} else if (n == 2 && !strcmp(w[0], "bil")) {
 		printf("bil %s\n", vh_st(archive_write_set_bytes_in_last_block(a, atoi(w[1]))));
 	} else if (n == 1 && !strcmp(w[0], "open")) {
+		scribble();
 		int r = archive_write_open(a, NULL, open_cb, write_cb, close_cb);
 		printf("open %s", vh_st(r)); tail();
 	} else if (n == 3 && !strcmp(w[0], "openmem")) {
@@ -209,6 +210,7 @@ static void c_op(char *line)
 		mem_block = malloc(mem_block_size);            /* exact size: ASan sees any overrun */
 		memset(mem_block, 0xA5, mem_block_size);
 		mem_mode = 1; mem_used = 0;
+		scribble();
 		int r = archive_write_open_memory(a, mem_block, sz, &mem_used);
 		struct archive_write *aw = (struct archive_write *)a;
 		if (aw->client_writer != NULL && aw->client_writer != mem_wrap_cb) { orig_writer = aw->client_writer; aw->client_writer = mem_wrap_cb; }
@@ -234,6 +236,7 @@ static void c_op(char *line)
 			archive_entry_set_rdevmajor(e, (dev_t)strtoll(w[11], NULL, 10));
 			archive_entry_set_rdevminor(e, (dev_t)strtoll(w[12], NULL, 10));
 		}
+		scribble();
 		int r = archive_write_header(a, e);
 		archive_entry_free(e);
 		printf("header %s", vh_st(r)); tail();
@@ -249,15 +252,21 @@ static void c_op(char *line)
 			if (rawlen + len > rawcap) { rawcap = (rawlen + len) * 2 + 64; rawbuf = realloc(rawbuf, rawcap); }
 			memcpy(rawbuf + rawlen, b, len); rawlen += len;
 		}
+		scribble();
 		la_ssize_t r = archive_write_data(a, b, len);
 		free(b);
 		if (r >= 0) printf("data %lld", (long long)r); else printf("data %s", vh_st((int)r));
 		tail();
 	} else if (n == 1 && !strcmp(w[0], "finish")) {
-		printf("finish %s", vh_st(archive_write_finish_entry(a))); tail();
+		scribble();
+		int r = archive_write_finish_entry(a);
+		printf("finish %s", vh_st(r)); tail();
 	} else if (n == 1 && !strcmp(w[0], "close")) {
-		printf("close %s", vh_st(archive_write_close(a))); tail();
+		scribble();
+		int r = archive_write_close(a);
+		printf("close %s", vh_st(r)); tail();
 	} else if (n == 1 && !strcmp(w[0], "free")) {
+		scribble();
 		int r = archive_write_free(a); freed = 1;
 		printf("free %s", vh_st(r)); tail();
 	} else printf("bad-op\n");
